@@ -16,7 +16,8 @@ RULE = ("kind synthetic: random (frequencies, weights) meshes fed through a stub
         "(none | inside the spectrum) x imaginary modes (excluded | pretend_real) x band_indices x projection x classical x lang C|Py; "
         "oracles: closed forms, C == Py, T=0 limits, finiteness, signs/monotonicity/Dulong-Petit bound, S=-dF/dT and C_V=T dS/dT by central differences with two steps; "
         "kind real: zoo crystals through Phonopy.run_thermal_properties vs the closed forms on the mesh it used; "
-        "non-trivial = at least one mode above the cutoff and T>0 present; distinct = (seed, options)")
+        "non-trivial = at least one mode above the cutoff and T>0 present; distinct = (seed, options); "
+        "additions of rounds 6-8: one synthetic case in eight has 1000-20000 q-points; arrays handed out are re-read after the object ran again")
 ASSUMPTIONS = [
     "documented units: F in kJ/mol, S and C_V in J/K/mol per primitive cell; constants from phonopy.units",
     "closed-form comparison tolerance 1e-8 of the natural scale (k_B T + h nu per mode for F, k_B per mode for S and C_V); sign floor 1e-12 k_B per mode",
